@@ -3,7 +3,7 @@
     Executable model of
       - src/config.rs : DefaultShard deserialisation (901-920), fill_up_auth_query_config
         (1139-1155), Config::validate (1505-1599), Pool::validate (701-831),
-        Shard::validate (938-978), User::validate (250-278), is_auth_query_configured (644-648);
+        Shard::validate (938-989), User::validate (250-278), is_auth_query_configured (644-648);
       - src/pool.rs   : ConnectionPool::from_config (312-629) — the order in which shard keys
         are sorted, what number each Address carries and at which POSITION its bb8 pool, its
         address and its ban list are stored; the bb8 builder assertions
@@ -191,14 +191,15 @@ Fixpoint distinct (l : list server) : list server :=
   | s :: r => if existsb (server_eqb s) r then distinct r else s :: distinct r
   end.
 
-(* config.rs:938-978: non-empty, no server with the mirror role, at most one primary,
-   no duplicate (host, port, role) *)
+(* config.rs:938-989: non-empty, no server with the mirror role, at most one primary,
+   no duplicate (host, port, role), every mirror follows one of the servers *)
 Definition shard_validate (sh : shard) : bool :=
   match sh_servers sh with
   | [] => false
   | _ => if existsb (fun s => role_eqb (sv_role s) Mirror) (sh_servers sh) then false
          else if 1 <? count_primary (sh_servers sh) then false
-         else Nat.eqb (length (distinct (sh_servers sh))) (length (sh_servers sh))
+         else if negb (Nat.eqb (length (distinct (sh_servers sh))) (length (sh_servers sh))) then false
+         else forallb (fun m => negb (Z.of_nat (length (sh_servers sh)) <=? mi_target m)) (sh_mirrors sh)
   end.
 
 (* config.rs:717-729: Err at the first key that is not a usize or shard that is invalid *)
